@@ -3,8 +3,8 @@ use std::collections::HashMap;
 use proc_macro2::{Ident, Span, TokenStream};
 use quote::quote;
 use syn::{
-    spanned::Spanned, Attribute, Error, Expr, ExprLit, GenericParam, Generics, Lit, LitStr, Path,
-    Result, Type,
+    ext::IdentExt, spanned::Spanned, Attribute, Error, Expr, ExprLit, GenericParam, Generics, Lit,
+    LitStr, Path, Result, Type,
 };
 
 use super::attr::{Attr, Serde};
@@ -342,7 +342,7 @@ pub fn format_generics(
                 if concrete.contains_key(&type_param.ident) {
                     return None;
                 }
-                let ty = type_param.ident.to_string();
+                let ty = type_param.ident.unraw().to_string();
                 if let Some(default) = &type_param.default {
                     deps.push(default);
                     Some(quote!(
